@@ -186,7 +186,7 @@ def run(ctx):
         if ctx.tier == "quick":
             plan = [("witness", 1), ("small", 100), ("mid", 260), ("big", 1)]
         else:
-            plan = [("witness", 1), ("small", 400), ("mid", 1200), ("big", 16)]
+            plan = [("witness", 1), ("small", 800), ("mid", 2400), ("big", 30)]
         reported = set()
         for kind, cnt in plan:
             for i in range(cnt):
@@ -217,7 +217,7 @@ def run(ctx):
                 found = True
         # ---- in-process stream: the real AdjustCounts::Run vs KV.KN.adjust on arbitrary sorted tables
         try:
-            found |= bool(C05_adjust.adjust_stream(ctx, flags, 400 if ctx.tier == "quick" else 6000))
+            found |= bool(C05_adjust.adjust_stream(ctx, flags, 400 if ctx.tier == "quick" else 20000))
         except Exception as ex:          # harness does not build / died: a broken correspondence
             import traceback
             problems.append("adjust stream could not run: %s" % traceback.format_exc()[-1500:])
